@@ -51,6 +51,8 @@ IRFIELDS = ["Value._name", "Value._shape", "Value._type", "Value._producer", "Va
 def build(eng, tier):
     build_identity(eng)
     build_dedup(eng, tier)
+    build_unused_removal(eng)
+    build_unused_initializers(eng)
 
 
 def build_identity(eng):
@@ -185,3 +187,116 @@ def key_of(t):
         loops={0: LoopSpec(invariant=[], modifies=None),
                1: LoopSpec(invariant=["nonnull(initializers)", "allocated(initializers)", inv_d], modifies=None)},
         ensures=[], raises_default=[], assert_mode="raise"))
+
+
+def build_unused_removal(eng):
+    """_remove_unused_nodes_in_graph_like (dead-code elimination): a node is handed to Graph.remove only when it is dead - none of
+    its outputs is an output of the graph being cleaned and none has a use.  Carried as a ghost precondition on Graph.remove at
+    this call site (removing such a node cannot change what the graph computes); proved with the invariant of the scanning loop
+    over the node's outputs (`removable` still true => every output seen so far is dead).  The rest of the body (trimming of
+    trailing inputs / optional outputs, recursion into subgraphs) is abstracted (lenient mode)."""
+    from pyvc.core import Exc
+    from pyvc.types import NULL, VNone, VOpaque, fresh_name
+    UR = "onnx_ir.passes.common.unused_removal"
+    schema.core_ir(eng)
+    SETV = eng.SET(TRef("Value"))
+    dead = ("forall(lambda j=int: implies(0 <= j and j < len(nodes._outputs), "
+            "not (nodes._outputs[j] in g_outs) and len(box(nodes._outputs[j]._uses)) == 0))")
+    remove_c = FnDecl(f"{CORE}.Graph.remove", "contract", CORE, "Graph.remove",
+        # GHOST PRECONDITION: the node is dead (g_outs: the outputs of the graph being cleaned, captured when the scan started)
+        requires=["nonnull(nodes)", dead], ensures=[], raises={"AnyException": []}, modifies=None)
+
+    def fresh_nodes(e, p, name):
+        import z3
+        v = e.symbolic_param(p, fresh_name(name), TSeq(TRef("Node")))
+        i = z3.Int(fresh_name("qi"))
+        p.assume(v.len >= 0)
+        p.assume(z3.ForAll([i], z3.Implies(z3.And(0 <= i, i < v.len), v.at(i).z != NULL)))
+        return v
+
+    def setup(e, p, env):
+        e.lenient = True
+        e.functions[f"{CORE}.Graph.remove"] = remove_c
+        for nm in ("_remove_trailing_empty_inputs", "_remove_unused_optional_outputs", "_remove_unused_nodes_in_graph_like"):
+            e.functions[f"{UR}.{nm}"] = FnDecl(f"{UR}.{nm}", "opaque", raises={"AnyException": []})
+        orig_rev = e.bi_reversed
+
+        def bi_reversed(p2, args, kwargs, node):
+            from pyvc.types import VRef
+            if args and isinstance(args[0], VRef) and args[0].cls == "Graph":
+                return [(p2, fresh_nodes(e, p2, "nodes_reversed"))]      # some sequence of the graph's nodes
+            return orig_rev(p2, args, kwargs, node)
+        e.bi_reversed = bi_reversed
+        orig_iter = e.iter_extra
+
+        def iter_extra(v, p2):
+            from pyvc.types import VRef
+            if isinstance(v, VRef) and v.cls in ("GraphOutputs", "GraphInputs"):
+                return e.to_seq(e.read_field(p2, v, "data"), p2)
+            return orig_iter(v, p2)
+        e.iter_extra = iter_extra
+    eng.add_target(Target("_remove_unused_nodes_in_graph_like", mod=UR, qual="_remove_unused_nodes_in_graph_like", setup=setup,
+        params={"function_or_graph": TRef("Graph")},
+        requires=["nonnull(function_or_graph)", "nonnull(function_or_graph._outputs)", "nonnull(function_or_graph._outputs.data)",
+                  "forall(lambda n=Node, j=int: implies(0 <= j and j < len(n._outputs), nonnull(n._outputs[j]) and nonnull(n._outputs[j]._uses)))"],
+        local_types={"graph_outputs": SETV},
+        ghost=[("store:graph_outputs", "after", "g_outs = graph_outputs")],
+        loops={"for output in node.outputs": LoopSpec(
+                   invariant=["implies(removable, forall(lambda j=int: implies(0 <= j and j < k, not (it[j] in g_outs) and len(box(it[j]._uses)) == 0)))"],
+                   modifies=[])},
+        ensures=[], raises_default=[], modifies=None, assert_mode="raise"))
+
+
+def build_unused_initializers(eng):
+    """RemoveUnusedNodesPass.call: an initializer is deleted only when it has no use and is neither an input nor an output of
+    the main graph (ghost precondition on GraphInitializers.__delitem__ at this call site: `key` names such an initializer)."""
+    UR = "onnx_ir.passes.common.unused_removal"
+    GCm = "onnx_ir._graph_containers"
+    SETV = eng.SET(TRef("Value"))
+    eng.declare_class_from_source(UR, "RemoveUnusedNodesPass", fields={})
+    if "Model" not in eng.classes:
+        schema.opaque_class(eng, "Model")
+    eng.classes["Model"].fields.setdefault("graph", TRef("Graph"))
+    schema.opaque_class(eng, "Functions05")
+    eng.classes["Model"].fields.setdefault("functions", TRef("Functions05"))
+    dead_init = ("key is not None and some(key) in box(self.data) and len(box(box(self.data)[some(key)]._uses)) == 0 and "
+                 "not (box(self.data)[some(key)] in g_gout) and not (box(self.data)[some(key)] in g_gin)")
+    del_c = FnDecl(f"{GCm}.GraphInitializers.__delitem__", "contract", GCm, "GraphInitializers.__delitem__",
+        requires=["nonnull(self.data)", dead_init], ensures=[], raises={"AnyException": []}, modifies=None)
+
+    def setup(e, p, env):
+        e.lenient = True
+        e.functions[f"{GCm}.GraphInitializers.__delitem__"] = del_c
+        e.functions[f"{UR}._remove_unused_nodes_in_graph_like"] = FnDecl(f"{UR}._remove_unused_nodes_in_graph_like", "opaque", raises={"AnyException": []})
+        orig_iter = e.iter_extra
+
+        def iter_extra(v, p2):
+            from pyvc.types import VRef
+            if isinstance(v, VRef) and v.cls in ("GraphOutputs", "GraphInputs"):
+                return e.to_seq(e.read_field(p2, v, "data"), p2)
+            return orig_iter(v, p2)
+        e.iter_extra = iter_extra
+        # initializers.values(): the values of the dictionary
+        e.functions["stdlib:_collections_abc.Mapping.values"] = FnDecl("Mapping.values", "builtin", impl=lambda e2, p2, a, k, n: [(p2, map_values(e2, p2, a[0]))])
+
+    def map_values(e, p, d):
+        import z3
+        from pyvc.types import NULL, fresh_name
+        m = e.box_value(p, e.read_field(p, d, "data"))
+        v = e.symbolic_param(p, fresh_name("init_values"), TSeq(TRef("Value")))
+        i = z3.Int(fresh_name("vi"))
+        p.assume(v.len >= 0)
+        # every enumerated value is non-null, named, and stored under its name (C01 INIT)
+        nm = lambda x: e.read_field(p, x, "_name")
+        p.assume(z3.ForAll([i], z3.Implies(z3.And(0 <= i, i < v.len),
+                 z3.And(v.at(i).z != NULL, z3.Not(nm(v.at(i)).isnone), m.has(nm(v.at(i)).val), m.get(nm(v.at(i)).val).z == v.at(i).z))))
+        return v
+    eng.add_target(Target("RemoveUnusedNodesPass.call[initializers]", mod=UR, qual="RemoveUnusedNodesPass.call", self_cls="RemoveUnusedNodesPass",
+        params={"model": TRef("Model")}, setup=setup,
+        requires=["nonnull(model)", "nonnull(model.graph)", "nonnull(model.graph._outputs)", "nonnull(model.graph._inputs)",
+                  "nonnull(model.graph._outputs.data)", "nonnull(model.graph._inputs.data)",
+                  "nonnull(model.graph._initializers)", "nonnull(model.graph._initializers.data)",
+                  "forall(lambda v=Value: nonnull(v._uses))"],
+        local_types={"graph_outputs": SETV, "graph_inputs": SETV},
+        ghost=[("store:graph_outputs", "after", "g_gout = graph_outputs"), ("store:graph_inputs", "after", "g_gin = graph_inputs")],
+        ensures=[], raises_default=[], modifies=None, assert_mode="raise"))
